@@ -127,7 +127,7 @@ def _run(case):
 
     c = dict.fromkeys(
         ["steps", "spk", "sub", "win_supra", "respike", "amb", "maskamb", "exact_eq", "exact_lt",
-         "exact_gt", "masked", "held", "attr_cmp", "reused", "reused_spk"], 0)
+         "exact_gt", "masked", "held", "attr_cmp", "reused", "reused_spk", "overflow"], 0)
     labels = set()
     deferred = None
 
@@ -161,6 +161,50 @@ def _run(case):
                         n.voltage = torch.from_numpy(vs.copy())
                         v0 = _np(n.voltage, wd)
                     assert np.array_equal(v0, vs), "voltage setter did not store the assigned values"
+
+            if stp.get("overflow"):
+                # ---- overflow step (constant-reset classes): a finite drive so large that the integrated
+                # voltage is +inf / > 1e30.  The contract still applies: out of refractory and V >= Theta
+                # => spike, voltage == reset_v exactly (finite), refrac == refrac_t.  Ends the trajectory.
+                assert cls != "GLIF2"
+                sgn = 1.0 if ref.R > 0 else -1.0
+                if cls in LINEAR:  # keep R*I finite: (V - rest - R I) d + rest + R I would be inf - inf otherwise
+                    mag = (1e37 if wd is np.float32 else 1e300) / max(1.0, abs(ref.R))
+                else:
+                    mag = 3e38 if wd is np.float32 else 1e308
+                ixw = np.full(full, sgn * mag, dtype=wd)
+                dec, mask, mask_exact = ref.countdown(r0)
+                with np.errstate(all="ignore"):
+                    ieff, iabs = ref.eff_input(ixw.astype(np.float64), a0b)
+                    vin, _ = ref.integrate(v0.astype(np.float64), ieff, iabs)
+                sure = mask & mask_exact & ~np.isnan(vin) & (vin > 1e30)
+                x = torch.from_numpy(ixw.copy())
+                kw = {"refrac_lock": bool(stp.get("lock", True))}
+                if adaptive:
+                    kw["adapt"] = stp.get("adapt", None)
+                with impl(f"forward overflow step {si}"):
+                    out = n(x, **kw)
+                    v1, r1 = _np(n.voltage, wd), _np(n.refrac, wd)
+                what = f"{cls} overflow step {si}"
+                check(isinstance(out, torch.Tensor) and out.dtype == torch.bool and tuple(out.shape) == full,
+                      "output:dtype", lambda: f"{what}: forward returned {getattr(out, 'dtype', None)} {tuple(getattr(out, 'shape', ()))}")
+                sp = out.detach().clone().numpy()
+                bad = sure & ~sp
+                check(not bad.any(), "overflow:nospike",
+                      lambda: f"{what}: no spike although out of refractory and the integrated voltage overflows "
+                              f"(reference V={vin[bad][0]!r}, I={ixw[bad][0]!r}, pre V={v0[bad][0]!r}) at {np.argwhere(bad)[0].tolist()}")
+                rv = wd(case["params"]["reset_v"])
+                bad = sure & ~(np.isfinite(v1) & (v1 == rv))
+                check(not bad.any(), "overflow:reset",
+                      lambda: f"{what}: voltage after the spike is {v1[bad][0]!r}, documented reset_v {rv!r} "
+                              f"(I={ixw[bad][0]!r}, pre V={v0[bad][0]!r}) at {np.argwhere(bad)[0].tolist()}")
+                bad = sure & ~(r1 == wd(case["refrac_t"]))
+                check(not bad.any(), "overflow:refrac",
+                      lambda: f"{what}: remaining refractory time {r1[bad][0]!r} after the spike, expected {case['refrac_t']!r}")
+                c["overflow"] += int(sure.sum())
+                if sure.any():
+                    labels.add("overflow-step")
+                break
 
             # ---- input currents (symbolic drives resolved against the observed pre-state)
             v64 = v0.astype(np.float64)
@@ -523,6 +567,12 @@ def step_case(draw, tier="quick"):
                 st.tuples(st.just("th"), st.integers(-64, 64), st.integers(0, 4)),
                 st.tuples(st.just("abs"), _q(-90, 50, 8))).map(list), min_size=1, max_size=2))
         steps.append(s)
+    if cls != "GLIF2" and draw(st.integers(0, 6)) == 3:
+        # overflow stratum: a last step whose finite drive overflows the integrated voltage
+        last = {"el": [["z"]], "lock": steps[-1]["lock"], "overflow": True}
+        if adaptive:
+            last["adapt"] = steps[-1]["adapt"]
+        steps.append(last)
     case = {"cls": cls, "dtype": dtype, "dt": dt, "refrac_t": refrac_t, "shape": shape, "batch": batch,
             "params": params, "train": draw(st.booleans()) if adaptive else True, "steps": steps}
     if adaptive:
@@ -604,6 +654,8 @@ ASSUMPTIONS = [
     "arithmetic is provably exact; refractory masks are ambiguous where float32(dt) arithmetic and the exact "
     "stored values disagree; refractory length is a lower bound (ratios within 1e-3 above an integer count as it)",
     "trajectories stop (no verdict) once the reference voltage exceeds 1e30 (float32) / 1e290 (float64) or is "
-    "non-finite; inputs are finite, |I| <= 1e6",
+    "non-finite; inputs are finite, |I| <= 1e6, except the final 'overflow step' of ~14 % of the constant-reset "
+    "step cases (|I| up to 3e38 / 1e308): there only spike == True, voltage == reset_v and refrac == refrac_t "
+    "are asserted for neurons that are decisively out of refractory (GLIF2's linear reset rule is excluded)",
     "EIF/AdEx have no exact-threshold stratum (inexact exp); their >= is the same shared thresholding function",
 ]
